@@ -15,6 +15,7 @@ from . import calls
 from . import values as V
 from .ctx import Ctx, PathEnd
 from .interp import Interp, PyRaise, get_funcdef, qualname_of
+from .values import T as T_
 from .values import (EngineError, EnumInfo, GList, SBool, SCardSet, SDict, SEnum, SInt, SList,
                      SObj, SOpt, SSeq, SSet, SVec, b_not, mk_bool)
 
@@ -137,6 +138,13 @@ def concretize(m, v):
         return {0: ' \n', 1: '% a comment line\n'}.get(k, '[Event "x"]\n')
     if isinstance(v, _ext.SExt):
         return _ext.SExt(v.kind, {k: concretize(m, x) for k, x in v.fields.items()})
+    if isinstance(v, _ext.SCharSeq):
+        n = max(0, min(ev(T_(v.n)).as_long(), 2000))
+        out = []
+        for i in range(n):
+            code = ev(z3.Select(v.arr, T_(v.off) + i)).as_long()
+            out.append('\n' if code == 10 else chr(97 + code % 26))
+        return ''.join(out)
     if isinstance(v, _ext.SBytes):
         n = max(0, min(ev(v.n).as_long(), 400))
         return bytes(ev(z3.Select(v.arr, i)).as_long() % 256 for i in range(n))
